@@ -115,7 +115,11 @@ def pick_items(lst, tables, rng, rich):
         # rows printed more than once (TOUGH2_MP prints the rows shared between processes twice): the line a row is read from
         # is then out of sequence with its neighbours'
         if getattr(lst, "simulator", "") == "TOUGH2_MP" and nrows > 300:
-            rows = sorted(set(rows + rng.sample(range(nrows), 200)))      # parallel runs print shared rows twice, sometimes with other values
+            # parallel runs print shared rows twice, sometimes with other values; the sample has its own generator, so that what is
+            # drawn here does not depend on how many numbers the selections of other files consumed
+            own = random.Random(core.seed() * 1000 + nrows)
+            # (one history call serves any number of rows in a fraction of a second: every row of tables up to 20 000 rows)
+            rows = list(range(nrows)) if nrows <= 20000 else sorted(set(rows + own.sample(range(nrows), 2000)))
         rl = getattr(tab, "row_line", None)
         if rl is not None and len(rl) == nrows and nrows > 2:
             odd = [r for r in range(1, nrows) if rl[r] != rl[r - 1] + 1 and rl[r] - rl[r - 1] not in (2, 3, 4, 5)]
